@@ -1,5 +1,5 @@
 (* C12 — proofs about the import functions of Ec/Point.v (value-level model over Z). *)
-From Coq Require Import ZArith List Bool Lia Setoid Morphisms Zdiv.
+From Coq Require Import ZArith List Bool Lia Setoid Morphisms Zdiv Znumtheory Zpow_facts.
 From GmVerif Require Import Ec.Num Ec.CurveSpec Ec.Z256 Ec.Mont Ec.MontProofs Ec.Jacobian Ec.JacobianProofs
   Ec.ScalarMul Ec.Point.
 Import ListNotations.
@@ -198,3 +198,323 @@ Proof. vm_compute. repeat split; try reflexivity. discriminate. Qed.
 Example compress_roundtrip_G :
   point_from_octets ZOps Z.ltb KpZ pin0 33 2 sm2_Gx 0 = Some (1, Gj).
 Proof. vm_compute. reflexivity. Qed.
+
+(* ---------------- compressed points ---------------- *)
+Local Instance eqm_opp_c : Proper (eqm c_p ==> eqm c_p) Z.opp := Zopp_eqm c_p.
+(* the field laws stated directly on the value-level functions (arguments universally
+   quantified, so that using them on the big constants needs no conversion) *)
+Lemma Lmul : forall a b, okp a -> okp b ->
+  okp (vmont_mul ZOps Z.ltb KpZ a b) /\ eqm c_p (decp (vmont_mul ZOps Z.ltb KpZ a b)) (decp a * decp b).
+Proof. exact (l_mul _ _ _ _ _ _ FpZ_laws). Qed.
+Lemma Lsqr : forall a, okp a ->
+  okp (vmont_sqr ZOps Z.ltb KpZ a) /\ eqm c_p (decp (vmont_sqr ZOps Z.ltb KpZ a)) (decp a * decp a).
+Proof. exact (l_sqr _ _ _ _ _ _ FpZ_laws). Qed.
+Lemma Ladd : forall a b, okp a -> okp b ->
+  okp (vmod_add ZOps Z.ltb KpZ a b) /\ eqm c_p (decp (vmod_add ZOps Z.ltb KpZ a b)) (decp a + decp b).
+Proof. exact (l_add _ _ _ _ _ _ FpZ_laws). Qed.
+Lemma Lsub : forall a b, okp a -> okp b ->
+  okp (vmod_sub ZOps Z.ltb KpZ a b) /\ eqm c_p (decp (vmod_sub ZOps Z.ltb KpZ a b)) (decp a - decp b).
+Proof. exact (l_sub _ _ _ _ _ _ FpZ_laws). Qed.
+Lemma Lneg : forall a, okp a ->
+  okp (vmod_neg ZOps Z.ltb KpZ a) /\ eqm c_p (decp (vmod_neg ZOps Z.ltb KpZ a)) (- decp a).
+Proof. exact (l_neg _ _ _ _ _ _ FpZ_laws). Qed.
+
+Lemma okp_mont_three : okp c_mont_three. Proof. vm_compute. split; [discriminate|reflexivity]. Qed.
+Lemma decp_mont_three : decp c_mont_three = 3. Proof. vm_compute. reflexivity. Qed.
+
+(* the exponentiation used by the square root keeps its result reduced *)
+Lemma sqrt_exp_ok : forall a, okp a -> okp (vmont_exp ZOps Z.ltb KpZ a c_sqrt_exp).
+Proof.
+  intros a Ha. unfold vmont_exp.
+  set (A := frm KpZ Rinv_p a).
+  assert (R0 : rel KpZ Rinv_p A (Some 1) a).
+  { cbn [rel]. split; [lia|]. split; [exact Ha|]. rewrite Z.pow_1_r. unfold A, frm.
+    symmetry. apply Z.mod_mod. change (km KpZ) with c_p. pose proof c_p_pos. lia. }
+  assert (R1 : rel KpZ Rinv_p A (Some 0) (knegm KpZ)).
+  { cbn [rel]. split; [lia|]. split; [vm_compute; split; [discriminate|reflexivity]|].
+    rewrite (frm_one KpZ KpZ_ok Rinv_p Rinv_p_ok c_p_pos). rewrite Z.pow_0_r.
+    symmetry. apply Z.mod_small. pose proof c_p_pos. change (km KpZ) with c_p. lia. }
+  assert (H0 : Forall2 (rel KpZ Rinv_p A) [Some 1; Some 0] [a; knegm KpZ])
+    by (constructor; [exact R0|]; constructor; [exact R1|]; constructor).
+  pose proof (run_rel KpZ KpZ_ok Rinv_p Rinv_p_ok A (exp_prog (bits_msb 256 c_sqrt_exp)) _ _ H0) as H.
+  pose proof (rel_get KpZ Rinv_p A _ _ 1%nat H) as G.
+  rewrite sqrt_exponent in G. cbn [rel] in G. destruct G as (_ & B & _). exact B.
+Qed.
+
+(* what the exponentiation of the square root computes *)
+Lemma sqrt_exp_val : forall a, okp a ->
+  decp (vmont_exp ZOps Z.ltb KpZ a c_sqrt_exp) = (decp a) ^ ((c_p + 1) / 4) mod c_p.
+Proof.
+  intros a Ha. unfold vmont_exp.
+  set (A := frm KpZ Rinv_p a).
+  assert (R0 : rel KpZ Rinv_p A (Some 1) a).
+  { cbn [rel]. split; [lia|]. split; [exact Ha|]. rewrite Z.pow_1_r. unfold A, frm.
+    symmetry. apply Z.mod_mod. change (km KpZ) with c_p. pose proof c_p_pos. lia. }
+  assert (R1 : rel KpZ Rinv_p A (Some 0) (knegm KpZ)).
+  { cbn [rel]. split; [lia|]. split; [vm_compute; split; [discriminate|reflexivity]|].
+    rewrite (frm_one KpZ KpZ_ok Rinv_p Rinv_p_ok c_p_pos). rewrite Z.pow_0_r.
+    symmetry. apply Z.mod_small. pose proof c_p_pos. change (km KpZ) with c_p. lia. }
+  assert (H0 : Forall2 (rel KpZ Rinv_p A) [Some 1; Some 0] [a; knegm KpZ])
+    by (constructor; [exact R0|]; constructor; [exact R1|]; constructor).
+  pose proof (run_rel KpZ KpZ_ok Rinv_p Rinv_p_ok A (exp_prog (bits_msb 256 c_sqrt_exp)) _ _ H0) as H.
+  pose proof (rel_get KpZ Rinv_p A _ _ 1%nat H) as G.
+  rewrite sqrt_exponent in G. cbn [rel] in G. destruct G as (_ & _ & Fv). exact Fv.
+Qed.
+
+Opaque vmont_mul vmont_sqr vmod_add vmod_sub vmod_neg vmont_exp vto_mont vfrom_mont c_mont_three c_mont_b.
+
+(* the right-hand side of the curve equation as the code computes it *)
+Lemma ysq_spec : forall x, 0 <= x < c_p ->
+  let xm := vto_mont ZOps Z.ltb KpZ x in
+  let ysq := vmod_add ZOps Z.ltb KpZ (vmont_mul ZOps Z.ltb KpZ
+               (vmod_sub ZOps Z.ltb KpZ (vmont_sqr ZOps Z.ltb KpZ xm) (nofZ ZOps c_mont_three)) xm) (nofZ ZOps c_mont_b) in
+  okp ysq /\ eqm c_p (decp ysq) (x * x * x + sm2_a * x + sm2_b).
+Proof.
+  intros x Hx xm ysq. unfold ysq. change (nofZ ZOps c_mont_three) with c_mont_three.
+  change (nofZ ZOps c_mont_b) with c_mont_b.
+  destruct (to_from_mont_p x Hx) as (Dx & Ox & _). fold xm in Dx, Ox.
+  change (decp xm = x) in Dx. change (okp xm) in Ox.
+  destruct (Lsqr xm Ox) as [O1 E1].
+  destruct (Lsub _ c_mont_three O1 okp_mont_three) as [O2 E2].
+  destruct (Lmul _ xm O2 Ox) as [O3 E3].
+  destruct (Ladd _ c_mont_b O3 okp_mont_b) as [O4 E4].
+  split; [exact O4|].
+  rewrite E4, E3, E2, E1, decp_mont_b, decp_mont_three, Dx.
+  assert (A3 : eqm c_p sm2_a (-3)) by (vm_compute; reflexivity). rewrite A3.
+  unfold eqm; f_equal; ring.
+Qed.
+
+(* a root returned by sm2_z256_modp_mont_sqrt is a root *)
+Lemma sqrt_sound : forall a r, okp a -> vmodp_mont_sqrt ZOps Z.ltb KpZ a = Some r ->
+  okp r /\ eqm c_p (decp r * decp r) (decp a).
+Proof.
+  intros a r Ha. unfold vmodp_mont_sqrt.
+  pose proof (sqrt_exp_ok a Ha) as Or.
+  remember (vmont_exp ZOps Z.ltb KpZ a c_sqrt_exp) as ym eqn:Eym. clear Eym.
+  cbn [neqb ZOps].
+  destruct (Z.eqb_spec (vmont_sqr ZOps Z.ltb KpZ ym) a) as [E|N]; intro H; inversion H; subst r.
+  split; [exact Or|].
+  destruct (Lsqr ym Or) as [_ E5]. rewrite E in E5. symmetry. exact E5.
+Qed.
+
+(* sm2_z256_point_from_x_bytes succeeds only with x < p and a point on the curve *)
+Theorem from_x_bytes_sound : forall Pin x odd P, 0 <= x ->
+  point_from_x_bytes ZOps Z.ltb KpZ Pin x odd = (1, P) ->
+  x < c_p /\ exists Y, okp Y /\ P = (vto_mont ZOps Z.ltb KpZ x, Y, knegm KpZ) /\
+    (decp Y * decp Y) mod c_p = (x * x * x + sm2_a * x + sm2_b) mod c_p.
+Proof.
+  intros [[X0 Y0] Zc0] x odd P Hx. unfold point_from_x_bytes.
+  change (km KpZ) with c_p.
+  destruct (Z.ltb_spec x c_p) as [Lx|Gx]; cbn [negb]; [|intro H; inversion H].
+  destruct (ysq_spec x ltac:(lia)) as (O4 & EY). cbv zeta in O4, EY.
+  match goal with |- context [vmodp_mont_sqrt ZOps Z.ltb KpZ ?a] =>
+    destruct (vmodp_mont_sqrt ZOps Z.ltb KpZ a) as [ym|] eqn:ES end; [|intro H; inversion H].
+  destruct (sqrt_sound _ _ O4 ES) as (Oym & E5).
+  destruct (Lneg ym Oym) as [O6 E6].
+  intro H. split; [exact Lx|].
+  assert (Sq : forall Y, Y = ym \/ Y = vmod_neg ZOps Z.ltb KpZ ym ->
+            okp Y /\ (decp Y * decp Y) mod c_p = (x * x * x + sm2_a * x + sm2_b) mod c_p).
+  { intros Y [->| ->]; (split; [assumption|]).
+    - change (eqm c_p (decp ym * decp ym) (x * x * x + sm2_a * x + sm2_b)). rewrite E5. exact EY.
+    - change (eqm c_p (decp (vmod_neg ZOps Z.ltb KpZ ym) * decp (vmod_neg ZOps Z.ltb KpZ ym)) (x * x * x + sm2_a * x + sm2_b)).
+      rewrite E6. transitivity (decp ym * decp ym); [unfold eqm; f_equal; ring|]. rewrite E5. exact EY. }
+  destruct odd; destruct (is_odd ZOps KpZ (vfrom_mont ZOps Z.ltb KpZ ym)); cbn [negb] in H;
+    inversion H; subst; eexists; (split; [|split; [reflexivity|]]); apply Sq; auto.
+Qed.
+
+(* ---------------- compress / decompress round trip ---------------- *)
+Section RT.
+  (* premises: p is prime (used for: no zero divisors) and Fermat's little theorem holds for p
+     (a consequence of primality that is not in the standard library); p = 3 (mod 4) is a
+     computed fact (C13_constants) *)
+  Hypothesis p_prime : prime c_p.
+  Hypothesis fermat : forall x, 0 < x < c_p -> x ^ (c_p - 1) mod c_p = 1.
+
+  Lemma no_zero_div : forall a b, (a * b) mod c_p = 0 -> a mod c_p = 0 \/ b mod c_p = 0.
+  Proof.
+    intros a b H. pose proof c_p_pos.
+    apply Z.mod_divide in H; [|lia].
+    destruct (prime_mult c_p p_prime a b H) as [D|D]; [left|right]; apply Z.mod_divide; auto; lia.
+  Qed.
+
+  (* square roots are unique up to sign *)
+  Lemma sqrt_unique : forall u v, 0 <= u < c_p -> 0 <= v < c_p ->
+    (u * u) mod c_p = (v * v) mod c_p -> u = v \/ (u + v) mod c_p = 0.
+  Proof.
+    intros u v Hu Hv E. pose proof c_p_pos.
+    assert (Z0 : ((u - v) * (u + v)) mod c_p = 0).
+    { replace ((u - v) * (u + v)) with (u * u - v * v) by ring.
+      rewrite Zminus_mod, E, Z.sub_diag. apply Z.mod_0_l. lia. }
+    destruct (no_zero_div _ _ Z0) as [D|D]; [left|right; exact D].
+    destruct (Z.le_gt_cases v u).
+    - rewrite Z.mod_small in D by lia. lia.
+    - replace (u - v) with (-(v - u)) in D by ring.
+      destruct (Z.eq_dec (v - u) 0); [lia|].
+      rewrite Z.mod_opp_l_nz in D by (rewrite ?Z.mod_small; lia). rewrite Z.mod_small in D by lia. lia.
+  Qed.
+
+  (* the library's square root succeeds on squares *)
+  Lemma sqrt_complete : forall a y, okp a -> 0 <= y < c_p -> decp a = (y * y) mod c_p ->
+    exists r, vmodp_mont_sqrt ZOps Z.ltb KpZ a = Some r /\ okp r /\
+              (decp r = y \/ (decp r + y) mod c_p = 0).
+  Proof.
+    intros a y Ha Hy Ea. pose proof c_p_pos as Hp.
+    unfold vmodp_mont_sqrt.
+    pose proof (sqrt_exp_ok a Ha) as Or. pose proof (sqrt_exp_val a Ha) as Vr.
+    remember (vmont_exp ZOps Z.ltb KpZ a c_sqrt_exp) as r eqn:Er. clear Er.
+    destruct (Lsqr r Or) as [Os Es].
+    (* decp (r^2) = A^((p+1)/2) = A * y^(p-1) = A *)
+    assert (Esq : decp (vmont_sqr ZOps Z.ltb KpZ r) = decp a).
+    { assert (Q : eqm c_p (decp (vmont_sqr ZOps Z.ltb KpZ r)) (decp a)).
+      { rewrite Es, Vr. rewrite Zmod_eqm.
+        rewrite <- Z.pow_add_r by (vm_compute; discriminate).
+        replace ((c_p + 1) / 4 + (c_p + 1) / 4) with (1 + (c_p - 1) / 2) by (vm_compute; reflexivity).
+        rewrite Z.pow_add_r by (try lia; vm_compute; discriminate). rewrite Z.pow_1_r.
+        assert (PW : eqm c_p (decp a ^ ((c_p - 1) / 2)) ((y * y) ^ ((c_p - 1) / 2))).
+        { unfold eqm. rewrite Ea. symmetry. apply Zpower_mod. lia. }
+        rewrite PW.
+        destruct (Z.eq_dec y 0) as [->|Ny].
+        - rewrite Ea. rewrite Zmod_eqm. unfold eqm; f_equal.
+        - assert (F1 : eqm c_p ((y * y) ^ ((c_p - 1) / 2)) 1).
+          { rewrite <- Z.pow_2_r. rewrite <- Z.pow_mul_r by (try lia; vm_compute; discriminate).
+            replace (2 * ((c_p - 1) / 2)) with (c_p - 1) by (vm_compute; reflexivity).
+            unfold eqm. rewrite fermat by lia. symmetry. apply Z.mod_small. lia. }
+          rewrite F1. unfold eqm; f_equal; ring. }
+      unfold eqm in Q. pose proof (decp_range (vmont_sqr ZOps Z.ltb KpZ r)). pose proof (decp_range a).
+      rewrite !Z.mod_small in Q by lia. exact Q. }
+    assert (Eq : vmont_sqr ZOps Z.ltb KpZ r = a) by (apply decp_inj; auto).
+    cbn [neqb ZOps]. rewrite Eq, Z.eqb_refl. exists r. split; [reflexivity|]. split; [exact Or|].
+    apply sqrt_unique; [apply decp_range | exact Hy |].
+    pose proof (decp_range a). change (eqm c_p (decp r * decp r) (y * y)).
+    rewrite <- Es. rewrite Eq. unfold eqm. rewrite Ea. apply Z.mod_mod. lia.
+  Qed.
+
+  Lemma is_odd_Z : forall a, is_odd ZOps KpZ a = (a mod 2 =? 1).
+  Proof. reflexivity. Qed.
+  Lemma from_to_mont : forall x, 0 <= x < c_p -> vfrom_mont ZOps Z.ltb KpZ (vto_mont ZOps Z.ltb KpZ x) = x.
+  Proof.
+    intros x Hx. destruct (to_from_mont_p x Hx) as (D & O & _).
+    destruct (to_from_mont_p _ O) as (_ & _ & Fm). rewrite Fm. exact D.
+  Qed.
+  Lemma from_mont_decp : forall r, okp r -> vfrom_mont ZOps Z.ltb KpZ r = decp r.
+  Proof. intros r Hr. destruct (to_from_mont_p r Hr) as (_ & _ & Fm). exact Fm. Qed.
+  Lemma to_mont_inj : forall r y, okp r -> 0 <= y < c_p -> decp r = y -> r = vto_mont ZOps Z.ltb KpZ y.
+  Proof.
+    intros r y Hr Hy E. destruct (to_from_mont_p y Hy) as (D & O & _).
+    apply decp_inj; auto. rewrite E. symmetry. exact D.
+  Qed.
+
+  (* compressing a valid (normalised) point and decompressing the result gives the same point *)
+  Theorem compress_decompress_partial : forall Pin x y, 0 <= x < c_p -> 0 <= y < c_p ->
+    (y * y) mod c_p = (x * x * x + sm2_a * x + sm2_b) mod c_p ->
+    let P := (vto_mont ZOps Z.ltb KpZ x, vto_mont ZOps Z.ltb KpZ y, knegm KpZ) in
+    let prefix := if y mod 2 =? 1 then 3 else 2 in
+    point_to_compressed ZOps Z.ltb KpZ P = Some (prefix, x) /\
+    point_from_octets ZOps Z.ltb KpZ Pin 33 prefix x 0 = Some (1, P).
+  Proof.
+    intros Pin x y Hx Hy Hc P prefix. pose proof c_p_pos as Hp. split.
+    - unfold point_to_compressed, point_get_xy, point_is_at_infinity, iszero, P.
+      cbn [modp_fops f_eqb f_zero f_one f_from_mont neqb ZOps].
+      replace (knegm KpZ =? k0 KpZ) with false by reflexivity.
+      rewrite Z.eqb_refl. cbn [Z.eqb Pos.eqb negb].
+      rewrite !from_to_mont by assumption. rewrite is_odd_Z. reflexivity.
+    - apply from_octets_complete. right.
+      assert (Epre : (prefix =? 3) = (y mod 2 =? 1)) by (unfold prefix; destruct (y mod 2 =? 1); reflexivity).
+      split; [unfold prefix; destruct (y mod 2 =? 1); auto|]. split; [reflexivity|]. rewrite Epre.
+      destruct Pin as [[X0 Y0] Zc0]. unfold point_from_x_bytes. change (km KpZ) with c_p.
+      replace (x <? c_p) with true by (symmetry; apply Z.ltb_lt; lia). cbn [negb].
+      destruct (ysq_spec x Hx) as (O4 & EY). cbv zeta in O4, EY.
+      match goal with |- context [vmodp_mont_sqrt ZOps Z.ltb KpZ ?a] => set (ysq := a) in * end.
+      assert (Ea : decp ysq = (y * y) mod c_p).
+      { pose proof (decp_range ysq). unfold eqm in EY. rewrite Z.mod_small in EY by lia. rewrite EY. symmetry. exact Hc. }
+      destruct (sqrt_complete ysq y O4 Hy Ea) as (r & Es & Or & Cases). rewrite Es.
+      rewrite (from_mont_decp r Or). rewrite !is_odd_Z.
+      destruct (Lneg r Or) as [On En].
+      assert (Dr := decp_range r).
+      destruct (Z.eq_dec (decp r) y) as [Eq|Neq].
+      + (* the root found is y itself: no negation *)
+        rewrite Eq. replace (if y mod 2 =? 1 then if negb (y mod 2 =? 1) then vmod_neg ZOps Z.ltb KpZ r else r
+                             else if y mod 2 =? 1 then vmod_neg ZOps Z.ltb KpZ r else r) with r
+          by (destruct (y mod 2 =? 1); reflexivity).
+        unfold P. rewrite <- (to_mont_inj r y Or Hy Eq). reflexivity.
+      + (* the root found is p - y: opposite parity, the code negates *)
+        destruct Cases as [C|C]; [contradiction|].
+        assert (Ey : decp r = c_p - y /\ 0 < y).
+        { destruct (Z.eq_dec y 0) as [->|Ny].
+          - rewrite Z.add_0_r, Z.mod_small in C by lia. lia.
+          - assert ((decp r + y) = c_p); [|lia].
+            destruct (Z.lt_ge_cases (decp r + y) c_p) as [L|G]; [rewrite Z.mod_small in C by lia; lia|].
+            rewrite (mod_sub_once (decp r + y) c_p) in C by lia. lia. }
+        destruct Ey as [Ey Ypos].
+        assert (Par : (decp r mod 2 =? 1) = negb (y mod 2 =? 1)).
+        { rewrite Ey. assert (Po : c_p mod 2 = 1) by reflexivity.
+          rewrite Zminus_mod, Po.
+          pose proof (Z.mod_pos_bound y 2 ltac:(lia)).
+          assert (y mod 2 = 0 \/ y mod 2 = 1) as [E0|E1] by lia; [rewrite E0 | rewrite E1]; reflexivity. }
+        rewrite Par.
+        replace (if y mod 2 =? 1 then if negb (negb (y mod 2 =? 1)) then vmod_neg ZOps Z.ltb KpZ r else r
+                 else if negb (y mod 2 =? 1) then vmod_neg ZOps Z.ltb KpZ r else r) with (vmod_neg ZOps Z.ltb KpZ r)
+          by (destruct (y mod 2 =? 1); reflexivity).
+        assert (Dn : decp (vmod_neg ZOps Z.ltb KpZ r) = y).
+        { pose proof (decp_range (vmod_neg ZOps Z.ltb KpZ r)). unfold eqm in En.
+          rewrite Z.mod_small in En by lia. rewrite En, Ey.
+          replace (- (c_p - y)) with (y + (-1) * c_p) by ring. rewrite Z.mod_add by lia. apply Z.mod_small. lia. }
+        unfold P. rewrite <- (to_mont_inj _ y On Hy Dn). reflexivity.
+  Qed.
+End RT.
+
+(* ---------------- sm2_z256_point_equ (the comparison sm2_private_key_from_der uses between
+   the recomputed public key [d]G and the one embedded in the container) ---------------- *)
+Theorem point_equ_sound : forall X1 Y1 Z1 X2 Y2 Z2,
+  okp X1 -> okp Y1 -> okp Z1 -> okp X2 -> okp Y2 -> okp Z2 ->
+  point_equ Z FpZ (X1, Y1, Z1) (X2, Y2, Z2) = true ->
+  eqm c_p (decp X1 * (decp Z2 * decp Z2)) (decp X2 * (decp Z1 * decp Z1)) /\
+  eqm c_p (decp Y1 * (decp Z2 * decp Z2 * decp Z2)) (decp Y2 * (decp Z1 * decp Z1 * decp Z1)).
+Proof.
+  intros X1 Y1 Z1 X2 Y2 Z2 OX1 OY1 OZ1 OX2 OY2 OZ2. unfold point_equ.
+  cbn [FpZ modp_fops f_mul f_sqr f_eqb neqb ZOps].
+  destruct (Lsqr Z1 OZ1) as [O1 E1]. destruct (Lsqr Z2 OZ2) as [O2 E2].
+  destruct (Lmul X1 _ OX1 O2) as [O3 E3]. destruct (Lmul X2 _ OX2 O1) as [O4 E4].
+  destruct (Lmul _ Z1 O1 OZ1) as [O5 E5]. destruct (Lmul _ Z2 O2 OZ2) as [O6 E6].
+  destruct (Lmul Y1 _ OY1 O6) as [O7 E7]. destruct (Lmul Y2 _ OY2 O5) as [O8 E8].
+  destruct (Z.eqb_spec (vmont_mul ZOps Z.ltb KpZ X1 (vmont_sqr ZOps Z.ltb KpZ Z2))
+                       (vmont_mul ZOps Z.ltb KpZ X2 (vmont_sqr ZOps Z.ltb KpZ Z1))) as [EV|NV]; cbn [negb]; [|discriminate].
+  intro HV. apply Z.eqb_eq in HV. split.
+  - rewrite <- E2, <- E3, <- E1, <- E4, EV. reflexivity.
+  - transitivity (decp Y1 * (decp (vmont_sqr ZOps Z.ltb KpZ Z2) * decp Z2)); [rewrite E2; unfold eqm; f_equal; ring|].
+    rewrite <- E6, <- E7, HV, E8, E5, E1. unfold eqm; f_equal; ring.
+Qed.
+
+(* accepted => equal public keys: P represents (x1, y1) with an invertible Z, Q is the normalised
+   point (x2, y2) decoded from the container; invertibility of Z follows from primality and
+   Z <> 0 and is an explicit premise *)
+Theorem mismatched_pub_rejected_partial : forall X1 Y1 Z1 x1 y1 x2 y2 zi,
+  jrepr c_p Z okp decp (X1, Y1, Z1) x1 y1 ->
+  0 <= x2 < c_p -> 0 <= y2 < c_p ->
+  eqm c_p (decp Z1 * zi) 1 ->
+  point_equ Z FpZ (X1, Y1, Z1) (vto_mont ZOps Z.ltb KpZ x2, vto_mont ZOps Z.ltb KpZ y2, knegm KpZ) = true ->
+  x1 mod c_p = x2 /\ y1 mod c_p = y2.
+Proof.
+  intros X1 Y1 Z1 x1 y1 x2 y2 zi (OX & OY & OZ & HX & HY) Hx2 Hy2 Hzi Heq.
+  destruct (to_from_mont_p x2 Hx2) as (Dx & Ox & _). destruct (to_from_mont_p y2 Hy2) as (Dy & Oy & _).
+  change (decp (vto_mont ZOps Z.ltb KpZ x2) = x2) in Dx. change (decp (vto_mont ZOps Z.ltb KpZ y2) = y2) in Dy.
+  assert (O1 : okp (knegm KpZ)) by (vm_compute; split; [discriminate|reflexivity]).
+  assert (D1 : decp (knegm KpZ) = 1) by (vm_compute; reflexivity).
+  destruct (point_equ_sound _ _ _ _ _ _ OX OY OZ Ox Oy O1 Heq) as (EX & EY).
+  rewrite Dx, D1 in EX. rewrite Dy, D1 in EY. pose proof c_p_pos.
+  split.
+  - assert (E : eqm c_p x1 x2).
+    { transitivity (x1 * ((decp Z1 * zi) * (decp Z1 * zi))); [rewrite Hzi; unfold eqm; f_equal; ring|].
+      transitivity ((x1 * (decp Z1 * decp Z1)) * (zi * zi)); [unfold eqm; f_equal; ring|].
+      rewrite <- HX. transitivity ((decp X1 * (1 * 1)) * (zi * zi)); [unfold eqm; f_equal; ring|].
+      rewrite EX. transitivity (x2 * ((decp Z1 * zi) * (decp Z1 * zi))); [unfold eqm; f_equal; ring|].
+      rewrite Hzi. unfold eqm; f_equal; ring. }
+    unfold eqm in E. rewrite E. apply Z.mod_small. lia.
+  - assert (E : eqm c_p y1 y2).
+    { transitivity (y1 * ((decp Z1 * zi) * (decp Z1 * zi) * (decp Z1 * zi))); [rewrite Hzi; unfold eqm; f_equal; ring|].
+      transitivity ((y1 * (decp Z1 * decp Z1 * decp Z1)) * (zi * zi * zi)); [unfold eqm; f_equal; ring|].
+      rewrite <- HY. transitivity ((decp Y1 * (1 * 1 * 1)) * (zi * zi * zi)); [unfold eqm; f_equal; ring|].
+      rewrite EY. transitivity (y2 * ((decp Z1 * zi) * (decp Z1 * zi) * (decp Z1 * zi))); [unfold eqm; f_equal; ring|].
+      rewrite Hzi. unfold eqm; f_equal; ring. }
+    unfold eqm in E. rewrite E. apply Z.mod_small. lia.
+Qed.
